@@ -540,6 +540,7 @@ type FuncContract struct {
 	LoopAssigns  map[int][]*SExpr
 	Attrs        map[string]string
 	Uses         []string // lemmas assumed while verifying this function
+	MayEmit      []string // events the function may produce internally (besides its declared emits); "*" = anything
 }
 
 func (c *FuncContract) HasTag(tag string) bool {
@@ -646,7 +647,7 @@ var itemKeywords = map[string]bool{
 	"func": true, "assume": true, "requires": true, "ensures": true, "assigns": true, "emits": true,
 	"loop": true, "on_panic": true, "spec": true, "ghost": true, "lemma": true, "axiom": true,
 	"on_store": true, "guarded_by": true, "lock_rank": true, "immutable": true, "attr": true,
-	"global_invariant": true, "stable": true, "frame": true, "uses": true, "params": true, "results": true, "lock_invariant": true, "type_invariant": true, "end": true,
+	"may_emit": true, "global_invariant": true, "stable": true, "frame": true, "uses": true, "params": true, "results": true, "lock_invariant": true, "type_invariant": true, "end": true,
 }
 
 type rawItem struct {
@@ -930,6 +931,13 @@ func (sp *Specs) parseItem(path string, it rawItem, cur **FuncContract) error {
 			return err
 		}
 		(*cur).Loops[n] = append((*cur).Loops[n], cl)
+	case "may_emit":
+		if err := needCur(); err != nil {
+			return err
+		}
+		for _, n := range strings.Split(rest, ",") {
+			(*cur).MayEmit = append((*cur).MayEmit, strings.TrimSpace(n))
+		}
 	case "attr":
 		if err := needCur(); err != nil {
 			return err
